@@ -142,7 +142,7 @@ def main():
                 # destination: a path mentioned in README/meta ending with the file name
                 m = re.search(r"([\w./-]*/)" + re.escape(fn), readme + " " + json.dumps(meta))
                 rel = m.group(1) if m else ""
-                rel = rel.replace(src + "/", "").lstrip("/")
+                rel = re.sub(r"/tmp/seed\d?-C\d\d/", "", rel.replace(src + "/", "")).lstrip("/")
                 rel = re.sub(r"^.*?(pkg/|cmd/|internal/|proto/|util/)", r"\1", rel) if rel else rel
                 target = os.path.join(root, rel, fn)
                 os.makedirs(os.path.dirname(target), exist_ok=True)
@@ -154,7 +154,7 @@ def main():
         for root in (clean, mut):  # demo commands often start with `cp SEEDED/<V>/demo/... <pkg>/`
             shutil.copytree(demo_dir, os.path.join(root, "SEEDED", var, "demo"), dirs_exist_ok=True)
             open(os.path.join(root, "SEEDED", "go.mod"), "w").write("module seeded\n\ngo 1.22\n")
-        cmd2 = cmd.replace(src, "{ROOT}")
+        cmd2 = re.sub(r"/tmp/seed\d?-C\d\d\b", "{ROOT}", cmd.replace(src, "{ROOT}"))
         cmd2 = re.sub(r"cd\s+\{ROOT\}\s*&&", "", cmd2)
         def run_demo(root):
             c = cmd2.replace("{ROOT}", root)
